@@ -44,53 +44,67 @@ def mc_lang(run, name, depth, mode, emit, samplek, names=NAMES3, nv=3, simulate=
     return path, cases, res
 
 
-def harness_with_watchdog(sub, cases_path, per_call_timeout=120):
-    """Run a replay sub-command; a hang of the code under test on a case the specification says
-    terminates is data: it is reported and the run resumes after that case."""
+def harness_with_watchdog(sub, cases_path, stall=90):
+    """Run a replay sub-command.  A hang of the code under test on a case the specification says terminates
+    is data: the harness rewrites a progress file before every case; when it has not changed for `stall`
+    seconds the process is killed, the case is reported and the run resumes after it."""
+    import time as _t
     build_harness()
     d = os.path.dirname(cases_path)
     progress = os.path.join(d, "progress.txt")
     skip = 0
-    total = None
     mism = []
     hangs = []
     agg = None
     while True:
         e = dict(os.environ)
         e["VERIF_SEED"] = str(seed())
-        try:
-            p = subprocess.run([HARNESS_BIN, sub, cases_path, progress, str(skip)], env=e, stdout=subprocess.PIPE,
-                               stderr=subprocess.DEVNULL, text=True, timeout=per_call_timeout)
-        except subprocess.TimeoutExpired as ex:
-            prog = open(progress).read().split("\n", 1)
-            ci, txt = int(prog[0]), (prog[1] if len(prog) > 1 else "")
-            hangs.append({"case": ci, "text": txt})
-            out = ex.stdout or ""
-            if isinstance(out, bytes):
-                out = out.decode("utf-8", "replace")
-            for l in out.splitlines():
+        outp = os.path.join(d, "replay_stdout.txt")
+        open(progress, "w").write("")
+        with open(outp, "w") as fo:
+            p = subprocess.Popen([HARNESS_BIN, sub, cases_path, progress, str(skip)], env=e, stdout=fo, stderr=subprocess.DEVNULL)
+            last, last_change = None, _t.time()
+            hung = False
+            while p.poll() is None:
+                _t.sleep(0.5)
                 try:
-                    j = json.loads(l)
-                except ValueError:
-                    continue
-                if "mismatch" in j:
-                    mism.append(j["mismatch"])
-            skip = ci + 1
-            if len(hangs) >= 4:
-                # enough evidence: every hang is reported as a violation; the remaining cases are not replayed
-                agg = {"cases": ci + 1, "evaluations": 0, "mismatches": len(mism), "kinds": {}, "token_kinds_spelled": [],
-                       "nonconstant_formulas": 0, "samples": [], "monotone_bodies": 0, "stopped_after_hangs": len(hangs)}
-                break
-            continue
-        if p.returncode != 0:
-            raise ToolError("harness %s exited %d" % (sub, p.returncode))
-        for l in p.stdout.splitlines():
-            j = json.loads(l)
+                    cur = open(progress).read()
+                except OSError:
+                    cur = last
+                if cur != last:
+                    last, last_change = cur, _t.time()
+                elif _t.time() - last_change > stall:
+                    p.kill()
+                    p.wait()
+                    hung = True
+                    break
+        lines = open(outp).read().splitlines()
+        for l in lines:
+            try:
+                j = json.loads(l)
+            except ValueError:
+                continue
             if "mismatch" in j:
                 mism.append(j["mismatch"])
             elif "summary" in j:
                 agg = j["summary"]
-        break
+        if not hung:
+            if p.returncode != 0:
+                raise ToolError("harness %s exited %d" % (sub, p.returncode))
+            break
+        prog = (last or "").split("\n", 1)
+        if not prog[0].strip().isdigit():
+            raise ToolError("harness %s stalled before its first case" % sub)
+        ci, txt = int(prog[0]), (prog[1] if len(prog) > 1 else "")
+        hangs.append({"case": ci, "text": txt})
+        skip = ci + 1
+        if len(hangs) >= 4:
+            # enough evidence: every hang is reported as a violation; the remaining cases are not replayed
+            agg = {"cases": ci + 1, "evaluations": 0, "mismatches": len(mism), "kinds": {}, "token_kinds_spelled": [],
+                   "nonconstant_formulas": 0, "samples": [], "monotone_bodies": 0, "stopped_after_hangs": len(hangs)}
+            break
+    if agg is None:
+        raise ToolError("harness %s produced no summary" % sub)
     return agg, mism, hangs
 
 
@@ -136,6 +150,11 @@ def c01(run):
     path, cases = lang_cases(run, t)
     s = replay_lang(run, path, "builder_d2", {"C01"})
     run.nontrivial = s["nonconstant_formulas"]
+    # deeper spines by simulation: random walks of the builder to depth 3 (thorough 4); every successor of a
+    # visited formula is checked by TLC, a sample is replayed through the real solver
+    p3, cases3, res3 = mc_lang(run, "sim_lang_d3", 4 if t else 3, "lang", True, 8, simulate="num=%d" % (60 if t else 6), timeout=7200)
+    if cases3:
+        replay_lang(run, p3, "simulated_deep", {"C01"})
     import checks_lang_trace
     checks_lang_trace.record_formulas(run, 30000 if t else 2500, {"C01"})
     run.exhaustive = True
